@@ -260,9 +260,12 @@ def _propagation_chunk(m, task):
             t0 = float(rng.choice([0.0, 1000.0]))
             pva.name = t0
 
+            # a third of the runs are sampled irregularly (the first interval is not representative of the rest: seeded change C04_2)
+            dts = np.full(n, dt) if k % 3 != 1 else np.hstack([[dt / 4], rng.uniform(dt / 4, 2 * dt, n - 1)])
+
             def traj(p, th, dv):
                 it = SD.Integrator(p, alt)
-                inc = pd.DataFrame(np.tile(np.hstack([[dt], th, dv]), (n, 1)), index=pd.Index(t0 + dt * np.arange(1, n + 1), name="time"), columns=INC)
+                inc = pd.DataFrame(np.hstack([dts[:, None], np.outer(dts / dt, th), np.outer(dts / dt, dv)]), index=pd.Index(t0 + np.cumsum(dts), name="time"), columns=INC)
                 it.integrate(inc)
                 return it.trajectory
             th0, dv0 = w * dt, f_body * dt
